@@ -1,1 +1,260 @@
-fn main(){}
+//! Test harness of the arroy verification framework: executes operations against the real
+//! crate (feature `verif-hooks`) and writes traces in the format of /verif/PROTOCOL.md.
+
+mod bq;
+mod exec;
+mod gen;
+mod kernels;
+mod keys;
+mod profiles;
+mod replay;
+mod util;
+
+use std::fs::File;
+use std::io::{BufRead, BufReader, BufWriter, Write};
+use std::process::ExitCode;
+use std::time::Instant;
+
+use profiles::Tier;
+
+const HELP: &str = "\
+harness <scenario> [options]
+
+scenarios
+  hist      generated histories (profile driven)          -> case / op / ev / res / dump records
+  replay <tracefile>   re-execute the op lines of a trace -> a fresh trace
+  kernels   distance kernels x lengths x offsets x value families -> kern / dist records
+  bq        binary quantisation of vectors                -> bq records
+  keys      raw keys written by real operations           -> keyseen records
+  profiles  list the profile names
+
+common options
+  --out FILE          write the trace to FILE (default: stdout)
+  --seed N            the one seed everything random derives from (default 1; also VERIF_SEED)
+  --tier quick|thorough   (default quick)
+  -q, --quiet         no summary on stderr
+
+hist
+  --profile NAME      base, c01 ... c20 (default c01)
+  --cases N           number of cases (default: the profile's)
+  --first-case N      number of the first case (default 0)
+  --only-case N       generate only case N (same ops as in the full run)
+  --threads N         force the thread count of every build
+  --mapsize BYTES     force the LMDB map size
+  --poll-limit N      builds are cancelled by the harness after N polls (hang detection)
+
+replay
+  --only-case N       replay only case N of the trace
+
+kernels
+  --max-len N         lengths 1..=N (default 300)
+  --rounds N          repeat with fresh values (default 1 quick, 20 thorough)
+
+bq
+  --max-dim N         dimensions 1..=N (default 300)
+  --exhaustive D      all 2^d sign patterns for d <= D (default 12 quick, 16 thorough)
+  --per-dim N         random vectors per dimension (default 50 quick, 1000 thorough)
+
+keys
+  --random N          random (index, item) probes after the boundary lattice (default 2000 / 10000)
+";
+
+#[derive(Default)]
+struct Args {
+    scenario: String,
+    positional: Vec<String>,
+    out: Option<String>,
+    seed: Option<u64>,
+    tier: Option<Tier>,
+    quiet: bool,
+    profile: Option<String>,
+    cases: Option<u64>,
+    first_case: u64,
+    only_case: Option<u64>,
+    threads: Option<usize>,
+    mapsize: Option<usize>,
+    poll_limit: Option<usize>,
+    max_len: Option<usize>,
+    rounds: Option<usize>,
+    max_dim: Option<usize>,
+    exhaustive: Option<usize>,
+    per_dim: Option<usize>,
+    random: Option<usize>,
+}
+
+fn parse_args() -> Result<Args, String> {
+    let mut args = Args::default();
+    let mut it = std::env::args().skip(1);
+    fn value<T: std::str::FromStr>(
+        it: &mut impl Iterator<Item = String>,
+        flag: &str,
+    ) -> Result<T, String> {
+        let v = it.next().ok_or_else(|| format!("{flag} needs a value"))?;
+        v.parse::<T>().map_err(|_| format!("bad value for {flag}: {v}"))
+    }
+    while let Some(a) = it.next() {
+        match a.as_str() {
+            "-h" | "--help" | "help" => {
+                print!("{HELP}");
+                std::process::exit(0);
+            }
+            "--out" => args.out = Some(value(&mut it, "--out")?),
+            "--seed" => args.seed = Some(value(&mut it, "--seed")?),
+            "--tier" => {
+                let t: String = value(&mut it, "--tier")?;
+                args.tier = Some(Tier::parse(&t).ok_or_else(|| format!("unknown tier {t}"))?);
+            }
+            "-q" | "--quiet" => args.quiet = true,
+            "--profile" => args.profile = Some(value(&mut it, "--profile")?),
+            "--cases" => args.cases = Some(value(&mut it, "--cases")?),
+            "--first-case" => args.first_case = value(&mut it, "--first-case")?,
+            "--only-case" => args.only_case = Some(value(&mut it, "--only-case")?),
+            "--threads" => args.threads = Some(value(&mut it, "--threads")?),
+            "--mapsize" => args.mapsize = Some(value(&mut it, "--mapsize")?),
+            "--poll-limit" => args.poll_limit = Some(value(&mut it, "--poll-limit")?),
+            "--max-len" => args.max_len = Some(value(&mut it, "--max-len")?),
+            "--rounds" => args.rounds = Some(value(&mut it, "--rounds")?),
+            "--max-dim" => args.max_dim = Some(value(&mut it, "--max-dim")?),
+            "--exhaustive" => args.exhaustive = Some(value(&mut it, "--exhaustive")?),
+            "--per-dim" => args.per_dim = Some(value(&mut it, "--per-dim")?),
+            "--random" => args.random = Some(value(&mut it, "--random")?),
+            flag if flag.starts_with("--") => return Err(format!("unknown option {flag}")),
+            _ if args.scenario.is_empty() => args.scenario = a,
+            _ => args.positional.push(a),
+        }
+    }
+    if args.scenario.is_empty() {
+        return Err("missing scenario".into());
+    }
+    Ok(args)
+}
+
+fn open_out(path: &Option<String>) -> Result<Box<dyn Write>, String> {
+    Ok(match path {
+        Some(p) if p != "-" => Box::new(BufWriter::with_capacity(
+            1 << 20,
+            File::create(p).map_err(|e| format!("{p}: {e}"))?,
+        )),
+        _ => Box::new(BufWriter::with_capacity(1 << 20, std::io::stdout().lock())),
+    })
+}
+
+fn real_main() -> Result<(), String> {
+    let args = parse_args()?;
+    let seed = args
+        .seed
+        .or_else(|| std::env::var("VERIF_SEED").ok().and_then(|s| s.parse().ok()))
+        .unwrap_or(1);
+    let tier = args.tier.unwrap_or(Tier::Quick);
+    let quick = tier == Tier::Quick;
+    exec::install_panic_hook();
+    let started = Instant::now();
+    match args.scenario.as_str() {
+        "profiles" => {
+            for n in profiles::NAMES {
+                println!("{n}");
+            }
+            Ok(())
+        }
+        "hist" => {
+            let name = args.profile.clone().unwrap_or_else(|| "c01".to_string());
+            let profile = profiles::profile(&name, tier)
+                .ok_or_else(|| format!("unknown profile {name} (see `harness profiles`)"))?;
+            let mut out = open_out(&args.out)?;
+            let overrides = gen::Overrides {
+                mapsize: args.mapsize,
+                poll_limit: args.poll_limit,
+                threads: args.threads,
+            };
+            let cases = args.cases.unwrap_or(profile.default_cases);
+            let range: Vec<u64> = match args.only_case {
+                Some(n) => vec![n],
+                None => (args.first_case..args.first_case + cases).collect(),
+            };
+            let _ = writeln!(
+                out,
+                "# harness hist --profile {name} --tier {} --seed {seed} --cases {cases} --first-case {}",
+                if quick { "quick" } else { "thorough" },
+                args.first_case
+            );
+            let (mut steps, mut ok, mut err, mut panics) = (0usize, 0usize, 0usize, 0usize);
+            for n in &range {
+                let s = gen::run_case(&profile, *n, util::case_seed(seed, *n), &overrides, &mut *out)?;
+                steps += s.steps;
+                ok += s.builds_ok;
+                err += s.builds_err;
+                panics += s.panicked as usize;
+            }
+            out.flush().map_err(|e| e.to_string())?;
+            if !args.quiet {
+                eprintln!(
+                    "hist {name}: {} cases, {steps} ops, builds ok={ok} failed={err}, panicked cases={panics}, {:.1}s",
+                    range.len(),
+                    started.elapsed().as_secs_f64()
+                );
+            }
+            Ok(())
+        }
+        "replay" => {
+            let path = args.positional.first().ok_or("replay needs a trace file")?;
+            let mut input: Box<dyn BufRead> = if path == "-" {
+                Box::new(BufReader::new(std::io::stdin()))
+            } else {
+                Box::new(BufReader::with_capacity(
+                    1 << 20,
+                    File::open(path).map_err(|e| format!("{path}: {e}"))?,
+                ))
+            };
+            let mut out = open_out(&args.out)?;
+            let _ = writeln!(out, "# harness replay {path}");
+            let stats = replay::replay(&mut *input, &mut *out, args.only_case)?;
+            out.flush().map_err(|e| e.to_string())?;
+            if !args.quiet {
+                eprintln!(
+                    "replay: {} cases, {} ops, panicked cases={}, {:.1}s",
+                    stats.cases,
+                    stats.steps,
+                    stats.panics,
+                    started.elapsed().as_secs_f64()
+                );
+            }
+            Ok(())
+        }
+        "kernels" => {
+            let mut out = open_out(&args.out)?;
+            let rounds = args.rounds.unwrap_or(if quick { 1 } else { 20 });
+            let _ = writeln!(out, "# harness kernels --seed {seed} --rounds {rounds}");
+            kernels::run(seed, tier, args.max_len.unwrap_or(300), rounds, &mut *out)?;
+            out.flush().map_err(|e| e.to_string())
+        }
+        "bq" => {
+            let mut out = open_out(&args.out)?;
+            let _ = writeln!(out, "# harness bq --seed {seed}");
+            bq::run(
+                seed,
+                args.max_dim.unwrap_or(300),
+                args.exhaustive.unwrap_or(if quick { 12 } else { 16 }),
+                args.per_dim.unwrap_or(if quick { 50 } else { 1000 }),
+                &mut *out,
+            )?;
+            out.flush().map_err(|e| e.to_string())
+        }
+        "keys" => {
+            let mut out = open_out(&args.out)?;
+            let _ = writeln!(out, "# harness keys --seed {seed}");
+            keys::run(seed, args.random.unwrap_or(if quick { 2000 } else { 10000 }), &mut *out)?;
+            out.flush().map_err(|e| e.to_string())
+        }
+        other => Err(format!("unknown scenario {other}\n\n{HELP}")),
+    }
+}
+
+fn main() -> ExitCode {
+    match real_main() {
+        Ok(()) => ExitCode::SUCCESS,
+        Err(e) => {
+            eprintln!("harness: {e}");
+            ExitCode::from(2)
+        }
+    }
+}
